@@ -26,7 +26,7 @@ func (c14) ID() string { return "C14" }
 func (c14) Meta() Meta {
 	return Meta{
 		Level:       "fault_enumeration",
-		Rule:        "(a) outline: for every native-syntax file state (base file, seeded prefixes and token edits of fixtures and generated configurations) SymbolsInFile is compared with M-sym, a direct walk of the hclsyntax AST (one symbol per written attribute/block in source order, name = attribute name or block type plus quoted labels, range = the item's extent, recursion into nested bodies, tuple elements and literally keyed object items), and every child's range must lie inside its parent's; (b) workspace: for workspaces of k <= 4 paths ALL 2^k subsets of paths whose PathContext fails are enumerated (exhaustive) and Decoder.Symbols(q) for q in {\"\", substrings of existing names, an absent string} must equal the union over the readable paths of the top-level symbols whose name contains q. distinct non-trivial = (a) file states with nesting depth >= 2, (b) (workspace, failing subset, query) with >= 1 failing and >= 1 healthy path.",
+		Rule:        "(a) outline: for every native-syntax file state (base file, seeded prefixes and token edits of fixtures and generated configurations) SymbolsInFile is compared with M-sym, a direct walk of the hclsyntax AST (one symbol per written attribute/block in source order, name = attribute name or block type plus quoted labels, range = the item's extent, recursion into nested bodies, tuple elements and literally keyed object items), and every child's range must lie inside its parent's; (b) workspace: for workspaces of k <= 4 paths ALL 2^k subsets of paths whose PathContext fails are enumerated (exhaustive) and Decoder.Symbols(q) for q in {\"\", substrings of existing names including windows across the blanks and quotes that the synthesised names contain, an absent string} - one workspace has its block headers aligned with several blanks/tabs so that names are not substrings of the source text - must equal the union over the readable paths of the top-level symbols whose name contains q. distinct non-trivial = (a) file states with nesting depth >= 2, (b) (workspace, failing subset, query) with >= 1 failing and >= 1 healthy path.",
 		Assumptions: []string{"HCL's own evaluation of an object key (KeyExpr.Value(nil)) defines 'literally keyed'", "JSON files are covered by C19 (outline equality with the native rendering), not here"},
 		Floor:       map[string]int{"quick": 60, "thorough": 300},
 		CaseBudget:  60,
